@@ -79,6 +79,10 @@ class UnitAlias(Contract):
     types = {"name": [("none",), ("str",)], "symbol": [("none",), ("str",)]}
     ret = ("none",)
 
+    def applicable(self, a):
+        # alias(None, None) (every anonymous construction) is a no-op: execute the body
+        return not (isinstance(a.name, VNone) and isinstance(a.symbol, VNone))
+
     def requires(self, c, a):
         yield "allocated", c.alive(a.self)
 
